@@ -42,6 +42,7 @@ type c13scn struct {
 	Slow   bool   `json:"slow"`
 	N      int    `json:"n"` // readers
 	Cycles int    `json:"cycles"` // pause / resume cycles of the readers or of the publisher before the first Close
+	Mix    []string `json:"mix,omitempty"` // play: transport of each reader when they differ (tcp | udp | mcast)
 }
 
 func driveC13(a *args, s *vt.Sink) error {
@@ -86,11 +87,22 @@ func driveC13(a *args, s *vt.Sink) error {
 		if sc.Kind == "play" && sc.Proto == "udp" && !sc.TLS && rng.Intn(2) == 0 {
 			sc.Proto = "mcast" // readers share the stream's multicast writer
 		}
+		if sc.Kind == "play" && !sc.TLS && sc.Tunnel == "" && rng.Intn(3) == 0 {
+			// readers of one stream over different transports, leaving in any order
+			sc.N = 2 + rng.Intn(2)
+			sc.Mix = nil
+			for i := 0; i < sc.N; i++ {
+				sc.Mix = append(sc.Mix, []string{"tcp", "udp", "mcast"}[rng.Intn(3)])
+			}
+			sc.Closer = "client"
+		}
 		if (sc.Kind == "play" || sc.Kind == "record") && rng.Intn(3) == 0 {
 			sc.Cycles = 1 + rng.Intn(2)
 		}
 		sc.Slow = rng.Intn(2) == 0
-		sc.N = 1 + rng.Intn(3)
+		if sc.Mix == nil {
+			sc.N = 1 + rng.Intn(3)
+		}
 		if sc.Kind == "record" && rng.Intn(2) == 0 {
 			sc.Proto, sc.Tunnel, sc.Slow = "udp", "", true
 		}
@@ -156,6 +168,9 @@ func c13run(sc *c13scn, s *vt.Sink) (err error) {
 		cfg.TLS = bed.SelfSignedTLS()
 	}
 	cfg.Multicast = sc.Proto == "mcast"
+	for _, p := range sc.Mix {
+		cfg.Multicast = cfg.Multicast || p == "mcast"
+	}
 	if sc.Kind == "record" && sc.Proto == "udp" {
 		// datagrams reach the server slightly reordered, so that one datagram can release
 		// several packets (and callbacks) from the reorder buffer
@@ -268,7 +283,11 @@ func c13run(sc *c13scn, s *vt.Sink) (err error) {
 		}
 	case "play":
 		for i := 0; i < sc.N; i++ {
-			rd, err := bd.NewReader(bed.ReaderCfg{Proto: sc.Proto, Tunnel: sc.Tunnel, Timeout: 5 * time.Second},
+			proto := sc.Proto
+			if i < len(sc.Mix) {
+				proto = sc.Mix[i]
+			}
+			rd, err := bd.NewReader(bed.ReaderCfg{Proto: proto, Tunnel: sc.Tunnel, Timeout: 5 * time.Second},
 				"stream", func(_ *description.Media, _ format.Format, _ *rtp.Packet) {})
 			if err != nil {
 				return fmt.Errorf("c13: reader (%+v): %w", sc, err)
